@@ -2,8 +2,8 @@ package main
 
 // What each property's check does NOT decide (copied into every evidence file).
 var notDecided = map[string][]string{
-	"C01": {"termination: recursion measures and loop progress are not checked (the descent functions recurse on sub-nodes of a finite AST; not mechanised)",
-		"integer overflow; stack depth; panics inside hcl/cty beyond the modelled accessor contracts; user-supplied hooks and validators"},
+	"C01": {"termination of third-party code (hcl, cty, sort) and of user-supplied hooks/validators; termination on cyclic schemas or cyclic cty types (schemas and types are assumed to be finite trees — a schema that contains itself also makes its own Copy diverge)",
+		"integer overflow; stack depth; panics inside hcl/cty beyond the modelled accessor contracts"},
 	"C02": {"the candidate set itself (prefix filtering is under C07/C08/C15 rows)", "unicode column semantics beyond byte/column shift agreement",
 		"that every range lies inside the file for every input (ranges derived from parser nodes are trusted)"},
 	"C03": {"history independence through memory reachable only via third-party values (hcl AST nodes are assumed read-only)"},
